@@ -60,6 +60,10 @@ def step (line : String) : String :=
       let good := s.increasing && s.zero == 0 && s.bad == 0
       s!"ok conns={conns} g={g} dup={if s.increasing then 0 else conns} zero={s.zero * conns} badparity={s.bad * conns} exact={if good then conns else 0}"
     | _, _ => "bad-op"
+  | ["mix", r, seq] =>
+    -- every ingress path makes exactly one allocation on the one connection, in order
+    let kinds := String.ofList (seq.toList.map fun c => if c == 'u' then 'U' else if c == 'i' then 'I' else 'S')
+    "ok " ++ statsFor (r == "d") seq.length ++ " kinds=" ++ kinds
   | ["life", r, n] =>
     match n.toNat? with
     | some n => "ok " ++ statsFor (r == "d") (3 * n)
@@ -100,6 +104,7 @@ def spec (line : String) (implOut : String) : String :=
     match tokens line with
     | "conc" :: _ => match specStats o with | some t => "fail " ++ t | none => "ok"
     | "warm" :: _ => match specStats o with | some t => "fail " ++ t | none => "ok"
+    | "mix" :: _ => match specStats o with | some t => "fail " ++ t | none => "ok"
     | "life" :: _ => match specStats o with | some t => "fail " ++ t | none => "ok"
     | "alife" :: _ => match specStats o with | some t => "fail " ++ t | none => "ok"
     | "cold" :: _ =>
